@@ -72,3 +72,100 @@ func TestSFBoundedScrubGrammar(t *testing.T) {
 		t.Fatalf("%d of %d lines leak an address", bad, n)
 	}
 }
+
+// TestSFBoundedScrubShapes: second bounded stand-in for the regular-expression half of C07 - the textual SHAPES of one
+// address. Every placement of the "::" compression in an 8-group IPv6 address and in the 6-group prefix of an
+// IPv4-embedded one (and the uncompressed forms), with 1- and 4-digit groups, lower and upper case, bare, bracketed and
+// bracketed with a port, in three contexts; plus IPv4 with every octet width. Bound: about 3 000 lines, one address each.
+func TestSFBoundedScrubShapes(t *testing.T) {
+	type shape struct{ text, mark string }
+	var shapes []shape
+	hex4 := []string{"2001", "db8a", "85a3", "1f2e", "8a2e", "3707", "7334", "beef"}
+	hex1 := []string{"2", "d", "8", "1", "a", "3", "7", "b"}
+	build := func(groups []string, tail string) {
+		// tail: "" or a dotted quad that follows the groups
+		n := len(groups)
+		join := func(g []string) string { return strings.Join(g, ":") }
+		full := join(groups)
+		if tail != "" {
+			full += ":" + tail
+		}
+		shapes = append(shapes, shape{full, full})
+		for s := 0; s <= n; s++ {
+			for l := 1; s+l <= n; l++ {
+				txt := join(groups[:s]) + "::" + join(groups[s+l:])
+				if tail != "" {
+					if s+l == n {
+						txt += tail
+					} else {
+						txt += ":" + tail
+					}
+				}
+				shapes = append(shapes, shape{txt, txt})
+			}
+		}
+	}
+	for _, hs := range [][]string{hex4, hex1} {
+		build(hs, "")
+		build(hs[:6], "192.0.2.33")
+		up := make([]string, len(hs))
+		for i := range hs {
+			up[i] = strings.ToUpper(hs[i])
+		}
+		build(up, "")
+		build(up[:6], "203.0.113.7")
+	}
+	build([]string{"0", "0", "0", "0", "0", "ffff"}, "198.51.100.9")
+	build([]string{"64", "ff9b", "0", "0", "0", "0"}, "198.51.100.10")
+	bad, n := 0, 0
+	try := func(line, mark string) {
+		n++
+		var out bytes.Buffer
+		ls := &LogScrubber{Output: &out}
+		ls.Write([]byte(line + "\n"))
+		direct := string(Scrub([]byte(line)))
+		// the address counts as surviving when any three consecutive characters of it containing a digit pair remain
+		// next to each other is too weak a test; we demand that the full text is gone AND no dotted quad and no run of
+		// three colon-separated groups of it is left
+		leak := func(s string) bool {
+			if strings.Contains(s, mark) {
+				return true
+			}
+			parts := strings.Split(mark, ":")
+			for i := 0; i+3 <= len(parts); i++ {
+				if parts[i] != "" && parts[i+1] != "" && parts[i+2] != "" && strings.Contains(s, parts[i]+":"+parts[i+1]+":"+parts[i+2]) {
+					return true
+				}
+			}
+			if k := strings.LastIndex(mark, ":"); strings.Count(mark[k+1:], ".") == 3 && strings.Contains(s, mark[k+1:]) {
+				return true
+			}
+			return false
+		}
+		if leak(out.String()) || leak(direct) {
+			bad++
+			if bad <= 200 {
+				t.Errorf("address %q survives: %q -> writer %q, direct %q", mark, line, strings.TrimSuffix(out.String(), "\n"), direct)
+			}
+		}
+	}
+	for _, sh := range shapes {
+		for _, wrap := range []string{"%s", "[%s]", "[%s]:443"} {
+			a := strings.Replace(wrap, "%s", sh.text, 1)
+			try(a, sh.mark)
+			try("connection from "+a+" closed", sh.mark)
+			try("addr="+a+", next", sh.mark)
+		}
+	}
+	for _, v4 := range []string{"1.2.3.4", "10.20.30.40", "100.200.100.200", "255.255.255.255", "9.99.199.0"} {
+		for _, a := range []string{v4, v4 + ":1", v4 + ":65535"} {
+			try(a, v4)
+			try("connection from "+a+" closed", v4)
+			try("addr="+a+", next", v4)
+		}
+	}
+	t.Logf("%d lines, %d with a surviving address", n, bad)
+	if bad > 0 {
+		t.Fatalf("%d of %d lines leak an address", bad, n)
+	}
+}
